@@ -35,10 +35,19 @@ NoRet == <<>>
 NoCS == [t |-> "", v |-> "", seg |-> <<"", "", "">>]
 
 \* ---------------------------------------------------------------- expansion of for-loops
-\* A declared call site yields one call per for item, in list order; the item is passed as V.
+\* The items of a loop: a list in list order, or a matrix in row-major order of the declared keys
+\* (the first key varies slowest); a matrix item is written as the concatenation of its values.
+RECURSIVE Product(_)
+Product(rows) ==
+  IF rows = <<>> THEN <<"">>
+  ELSE LET rest == Product(Tail(rows)) IN
+       FlattenSeq([i \in 1..Len(Head(rows)) |-> [j \in 1..Len(rest) |-> Head(rows)[i] \o rest[j]]])
+Items(x) == IF x.mat # <<>> THEN Product(x.mat) ELSE x.for
+
+\* A declared call site yields one call per for item, in order; the item is passed as V.
 ExpCS(cs, j, kind) ==
-  IF cs.for = <<>> THEN << [t |-> cs.t, v |-> cs.v, seg |-> <<kind, ToString(j), "">>] >>
-  ELSE [k \in 1..Len(cs.for) |-> [t |-> cs.t, v |-> cs.for[k], seg |-> <<kind, ToString(j), cs.for[k]>>]]
+  IF Items(cs) = <<>> THEN << [t |-> cs.t, v |-> cs.v, seg |-> <<kind, ToString(j), "">>] >>
+  ELSE [k \in 1..Len(Items(cs)) |-> [t |-> cs.t, v |-> Items(cs)[k], seg |-> <<kind, ToString(j), Items(cs)[k]>>]]
 
 ExpDeps(t) == FlattenSeq([j \in 1..Len(T(t).deps) |-> ExpCS(T(t).deps[j], j, "d")])
 
@@ -46,8 +55,8 @@ ExpCmd(c, i) ==
   CASE c.k = "call"  -> LET xs == ExpCS(c.cs, i, "c") IN
                         [n \in 1..Len(xs) |-> [k |-> "call", x |-> 0, ign |-> FALSE, i |-> i, item |-> xs[n].seg[3], cs |-> xs[n]]]
     [] c.k = "dcall" -> << [k |-> "dcall", x |-> 0, ign |-> FALSE, i |-> i, item |-> "", cs |-> ExpCS(c.cs, i, "c")[1]] >>
-    [] c.k = "sh"    -> IF c.for = <<>> THEN << [k |-> "sh", x |-> c.x, ign |-> c.ign, i |-> i, item |-> "", cs |-> NoCS] >>
-                        ELSE [n \in 1..Len(c.for) |-> [k |-> "sh", x |-> c.x, ign |-> c.ign, i |-> i, item |-> c.for[n], cs |-> NoCS]]
+    [] c.k = "sh"    -> IF Items(c) = <<>> THEN << [k |-> "sh", x |-> c.x, ign |-> c.ign, i |-> i, item |-> "", cs |-> NoCS] >>
+                        ELSE [n \in 1..Len(Items(c)) |-> [k |-> "sh", x |-> c.x, ign |-> c.ign, i |-> i, item |-> Items(c)[n], cs |-> NoCS]]
     [] c.k = "dsh"   -> << [k |-> "dsh", x |-> c.x, ign |-> c.ign, i |-> i, item |-> "", cs |-> NoCS] >>
 
 \* The entries of one execution of task t, in the order in which they must be processed.
@@ -381,7 +390,7 @@ FanoutK ==
        IF /\ T(t).guard = "none" /\ Len(ds) >= 2
           /\ \A j \in 1..Len(ds) : LET d == T(ds[j].t) IN
                 /\ d.deps = <<>> /\ d.guard = "none" /\ d.run = "always"
-                /\ Len(d.cmds) > 0 /\ d.cmds[1].k = "sh" /\ d.cmds[1].for = <<>>
+                /\ Len(d.cmds) > 0 /\ d.cmds[1].k = "sh" /\ Items(d.cmds[1]) = <<>>
        THEN Len(ds) ELSE 0
 
 \* C07c, general witness: before anything is released, the commands that can start are the first
